@@ -54,7 +54,6 @@ TECHNIQUE = "Lean 4 proof (polynomial identities, floor/argmin lemmas, list indu
 
 K_ARRAY_FAR = "C15/remove_pbc/bonded-atoms-not-array-adjacent-and-far-apart"
 K_UNITCELL_SNAP = "C15/vectors_from_unitcell/small-component-zeroed-by-sum-scaled-tolerance"
-K_TINY_BOX = "C15/displacement/tiny-skewed-box-passes-absolute-orthogonality-tolerance"
 K_REPEAT_AMOUNT = "C15/repeat_box/amount-ignored"
 
 
@@ -1157,8 +1156,11 @@ def _o_geom(case):
         elif motion == "rotate_about_axis":
             moved = struc.rotate_about_axis(allp, [mp[0], mp[1], mp[2] + 4.0], mp[3], support=[mp[4], mp[5], 1.0])
         elif motion == "align_vectors":
-            moved = struc.align_vectors(allp, [mp[0], mp[1], mp[2] + 4.0], [mp[3], mp[4] + 4.0, mp[5]], origin_position=[1.0, mp[0], 2.0],
-                                        target_position=[mp[1], -3.0, mp[2]])
+            # the formula divides by (1 + cos a): keep the two directions away from anti-parallel (float32 conditioning)
+            od, td = [mp[0], mp[1], mp[2] + 4.0], [mp[3], mp[4] + 4.0, mp[5]]
+            if sum(x * y for x, y in zip(od, td)) < 0:
+                td = [-x for x in td]
+            moved = struc.align_vectors(allp, od, td, origin_position=[1.0, mp[0], 2.0], target_position=[mp[1], -3.0, mp[2]])
         else:
             moved = struc.translate(allp, [mp[0] * 10, mp[1] * 10, mp[2] * 10])
         moved = np.asarray(moved)
